@@ -94,6 +94,9 @@ pub enum Rec {
     Trace { call: u64, ep: usize, hc: u64, ev: uv::trace::Event },
     /// State snapshot (hook H5) after the call.
     Probe { call: u64, t_ns: u64, ep: usize, probe: Probe, heap_live: i64 },
+    /// What the public query send_buffer_size() answers for an established connection (taken
+    /// right after the probe; `peer_addr` is the client's address on a server).
+    ApiSize { call: u64, ep: usize, peer_addr: Option<SocketAddr>, size: u64 },
     /// The call returned (or panicked).
     CallEnd { call: u64, ep: Option<usize>, panic: Option<PanicInfo> },
     /// End of the run; endpoints still exist.
@@ -600,6 +603,12 @@ impl<'a> World<'a> {
                 d.word(*hc);
                 d.word(crate::rng::str_key(&format!("{:?}", ev)));
             }
+            Rec::ApiSize { call, ep, size, .. } => {
+                d.word(12);
+                d.word(*call);
+                d.word(*ep as u64);
+                d.word(*size);
+            }
             Rec::Probe { call, ep, probe, .. } => {
                 d.word(8);
                 d.word(*call);
@@ -980,7 +989,25 @@ impl<'a> World<'a> {
             self.adversary = Some(adv);
             self.schedule_extra(extra);
         }
+        // the public queries of an established connection, as an application would make them
+        let mut api: Vec<(Option<SocketAddr>, u64)> = Vec::new();
+        if panic.is_none() {
+            match (&self.eps[ep].obj, &probe) {
+                (EpObj::Client(c), Probe::Client(p)) if p.state == 1 => api.push((None, c.send_buffer_size() as u64)),
+                (EpObj::Server(sv), Probe::Server(p)) => {
+                    for rc in p.clients.iter().filter(|c| c.state == 1) {
+                        if let Some(h) = sv.client(&rc.address) {
+                            api.push((Some(rc.address), h.borrow().send_buffer_size() as u64));
+                        }
+                    }
+                }
+                _ => (),
+            }
+        }
         self.emit(Rec::Probe { call, t_ns: self.now_ns, ep, probe, heap_live }, oracles);
+        for (peer_addr, size) in api {
+            self.emit(Rec::ApiSize { call, ep, peer_addr, size }, oracles);
+        }
         if let Some(p) = &panic {
             if !self.opts.panics_are_records {
                 self.panic = Some((p.clone(), call, op.name().to_string()));
